@@ -11,7 +11,6 @@ type GenesisDeposit struct {
 	Deposit
 	RootAfter string `json:"root_after"` // hash_tree_root(List[DepositData](leaves[:index+1])), own glue
 	PkValid   bool   `json:"pk_valid"`   // the pubkey bytes decode to a curve point
-	SigParses bool   `json:"sig_parses"` // the signature bytes decode to a curve point
 }
 
 // DepositListRoot is hash_tree_root(List[DepositData, 2**DEPOSIT_CONTRACT_TREE_DEPTH](datas)).
@@ -33,15 +32,13 @@ func AbstractGenesisDeposits(sigs SigLookup, deps []common.Deposit) ([]GenesisDe
 		pr := DepositProofRoot(d, uint64(i))
 		var pk blsu.Pubkey
 		rawPk := [48]byte(d.Data.Pubkey)
-		var sg blsu.Signature
-		rawSig := [96]byte(d.Data.Signature)
+		shape, parses := SigShapeOf(d.Data.Signature)
 		out = append(out, GenesisDeposit{
 			Deposit: Deposit{Pk: ID(d.Data.Pubkey[:]), Wc: Credentials(d.Data.WithdrawalCredentials),
 				Amount: p.num(uint64(d.Data.Amount), "deposit amount"), Sig: AbstractSig(sigs, d.Data.Signature), MsgRoot: ID(mr[:]),
-				ProofIndex: i, ProofRoot: ID(pr[:])},
+				ProofIndex: i, ProofRoot: ID(pr[:]), SigShape: shape, SigParses: parses},
 			RootAfter: ID(after[:]),
 			PkValid:   pk.Deserialize(&rawPk) == nil,
-			SigParses: sg.Deserialize(&rawSig) == nil,
 		})
 	}
 	return out, p.err
